@@ -129,5 +129,30 @@ func (nd *Node) CoqCase() string {
 		steps = append(steps, fmt.Sprintf("(%s %d, %s)", c, st.Node, n.CoqDump(st, blockName, full)))
 	}
 	probe := fmt.Sprintf("(Probe %s %s %s)", n.idList(n.SC), n.idList(n.SF), n.idList(n.FC))
-	return fmt.Sprintf("mk_case %d\n [%s]\n %s\n [%s]", nd.T.Env.Net.HardforkV2.RequireHeight, strings.Join(bl, ";\n  "), probe, strings.Join(steps, ";\n  "))
+	var ts []string
+	for _, st := range nd.Steps {
+		if _, ok := st.Diffs.RevisedAndResolved(); ok {
+			// known finding: core's revert update for such a block does not restore the old leaf
+			// hash (law L1 fails for the accumulator); the Tree bucket is not recorded from here on
+			break
+		}
+		ts = append(ts, n.CoqTreeStep(st))
+	}
+	return fmt.Sprintf("mk_case %d\n [%s]\n %s\n [%s]\n [%s]", nd.T.Env.Net.HardforkV2.RequireHeight, strings.Join(bl, ";\n  "), probe, strings.Join(steps, ";\n  "), strings.Join(ts, ";\n  "))
+}
+
+// CoqTreeStep renders what happened to the Tree bucket in a step: the row-0
+// nodes of core's update, the accumulator size it leads to, and the changed
+// bucket entries.
+func (n *Names) CoqTreeStep(st *StepRec) string {
+	var ups, ch []string
+	for _, t := range st.Diffs.Tree {
+		if t.Row == 0 {
+			ups = append(ups, fmt.Sprintf("(%d, %d)", t.Col, n.Pay(t.Hash[:])))
+		}
+	}
+	for _, t := range st.TreeChanges {
+		ch = append(ch, fmt.Sprintf("((%d%%nat, %d), %d)", t.Row, t.Col, n.Pay(t.Hash[:])))
+	}
+	return fmt.Sprintf("([%s], %d, [%s])", strings.Join(ups, "; "), st.Diffs.NumLeaves, strings.Join(ch, "; "))
 }
